@@ -63,6 +63,22 @@ CHECKS = {
         "Python driver/virtual clock; non-decreasing monotonic clock; 1/64 s time grid (float arithmetic exact).",
         "DESIGN.md §5 C10",
     ),
+    "C13": (
+        "Coq proof (case analysis of the verdict of one loop iteration against its complete event list; loop-level 'ended pass is the last') tied by in-Coq trace correspondence (projection: polls, invocations, sleeps, classifications, budget calls, kind of delivery) with abort answers at every poll index and cancellation thrown at every suspension point of hand-driven coroutines",
+        "Theorems C13_* (abort_if polled immediately before every attempt and, after the retry decision, before every sleep; a "
+        "True answer or AbortRetryError ends the run as aborted with nothing but the `aborted` report after it; cancellation-type "
+        "exceptions from the operation, before_sleep or the sleeper end the trace at that call and are delivered unchanged) for "
+        "all configurations/environments of the Gallina model of the retry loop.",
+        RUNNER_NOTE, "DESIGN.md §4 C13",
+    ),
+    "C16": (
+        "Coq proof (the handler/before_sleep/sleeper calls of a pass as a function of its verdict; SLEEP/DEFER/ABORT consequences; override by definition of resolve) tied by in-Coq trace correspondence (projection: handler, before_sleep, sleeper calls with placement, attempt, delay, decision; invocations; delivery kind and next_sleep_s) over all placements and decision sequences",
+        "Theorems C16_* (handler consulted exactly once per granted, not pre-empted retry with the computed delay; SLEEP => "
+        "before_sleep then exactly one sleeper call with that delay then the next attempt unless the deadline passed during the "
+        "sleep; DEFER => no sleep, SCHEDULED, next_sleep_s = delay; ABORT => ABORTED; call-level overrides policy-level; no handler "
+        "=> sleep) for all configurations/environments of the Gallina model.",
+        RUNNER_NOTE, "DESIGN.md §4 C16",
+    ),
 }
 
 NOT_YET = "check not built yet at this commit (work in progress; see DESIGN.md §10 build order)"
